@@ -14,7 +14,7 @@
    [run .. st_init history = Val s] says the history ran (no routing mutation hit a cloned
    request, which panics in the implementation) and ended in worker state [s]. *)
 From AV Require Import Lib.Base Web.Pool Web.PoolSpec Web.PoolProofs Gen.Consts.
-From AV Require Import Gen.PoolTables Web.PoolTie.
+From AV Require Import Gen.PoolTables Web.PoolTie Web.PoolObs.
 
 Definition HCAP : N := HEAD_POOL_CAP.      (* actix-http/src/message.rs: pool.len() < 128 *)
 Definition RCAP : N := REQUEST_POOL_CAP.   (* actix-web/src/request.rs: with_capacity(128) *)
@@ -130,6 +130,135 @@ Theorem C11_tie_drop :
   forallb (fun p => String.eqb (snd p) NO_GUARD) ACQUIRE_REINIT = true /\
   forallb (fun p => String.eqb (snd p) DROP_GUARD) DROP_SCRUB = true.
 Proof. split; [exact tie_drop|]. split; [exact tie_drop_push_last|]. exact tie_guards. Qed.
+
+(* ---- The callees of the pooled arm, read from actix-router on every run as well.
+   Url::update: the stored URI is replaced and the decoded-path cache is ASSIGNED the quoter's
+   answer, whatever it is (also None): afterwards the Url is the one Url::new(uri) builds, whatever
+   URI and decoded path the recycled object carried. A variant that keeps the old cache when the
+   quoter answers None (Url::update delegating to a conditional update_with_quoter) is not this
+   statement list: the translator reports it and this theorem no longer checks. *)
+Theorem C11_tie_url_update : forall requote (h : head) (o : obj),
+  let o' := interp_url requote h URL_UPDATE o in
+  o_uri o' = h_uri h /\ o_qpath o' = requote (h_uri h) /\
+  o' = mkObj (o_head o) (h_uri h) (requote (h_uri h)) (o_skip o) (o_segs o) (o_rids o) (o_matched o)
+             (o_app_data o) (o_conn o) (o_exts o) (o_id o).
+Proof. exact tie_url_update. Qed.
+
+(* Path::reset: skip = 0, segments cleared, nothing else touched. *)
+Theorem C11_tie_path_reset : forall o : obj,
+  interp_path PATH_RESET o =
+  mkObj (o_head o) (o_uri o) (o_qpath o) 0 [] (o_rids o) (o_matched o)
+        (o_app_data o) (o_conn o) (o_exts o) (o_id o).
+Proof. exact tie_path_reset. Qed.
+
+(* Component by component (the table [component_resets] of Web/PoolTie.v names, for each component
+   of the handler's view, the source statements that give it its value on a recycled object):
+   running the statement lists found in the source on ANY pooled object [o], every component
+   except app_data is a function of the new request's head [h] and data [q] alone, app_data is
+   what the object carried, and Drop leaves at most its first container; every statement the table
+   names is in the source, every writing statement of the source is in the table, and the callees'
+   statements are unconditional. *)
+Theorem C11_tie_components : forall requote (o : obj) (h : head) (q : reqd),
+  let o' := interp_acquire requote h q ACQUIRE_REINIT o in
+  (o_head o' = h /\
+   o_uri o' = h_uri h /\ o_qpath o' = requote (h_uri h) /\
+   o_skip o' = 0 /\ o_segs o' = [] /\
+   o_rids o' = [] /\ o_matched o' = false /\
+   o_exts o' = q_exts q /\ o_conn o' = q_conn q /\
+   o_app_data o' = o_app_data o /\
+   o_app_data (fst (interp_drop DROP_SCRUB o)) = firstn 1 (o_app_data o)) /\
+  forallb (fun row => forallb (fun st => existsb (stmt_eqb st) all_source_stmts) (snd row))
+          component_resets = true /\
+  forallb (fun st => stmt_eqb st SPush || existsb (fun row => existsb (stmt_eqb st) (snd row)) component_resets)
+          all_source_stmts = true /\
+  forallb (fun p => String.eqb (snd p) NO_GUARD) URL_UPDATE = true /\
+  forallb (fun p => String.eqb (snd p) NO_GUARD) PATH_RESET = true.
+Proof.
+  intros. split; [exact (tie_components requote o h q)|].
+  split; [exact tie_component_stmts_present|]. split; [exact tie_component_stmts_complete|].
+  exact tie_guards_callees.
+Qed.
+
+(* ---- Handler level (Web/PoolObs.v). What the PUBLIC accessors return -- method, URI, version,
+   headers, peer address, connection flags; Url::path (decoded-path cache or the URI's own path),
+   the path parameters cut out of it, the unprocessed rest; match_pattern() / match_name() (id path
+   under the matched flag, else look-up by path); extensions().get::<T>(), conn_data::<T>(),
+   app_data::<T>() (innermost container first) for any list [ts] of types -- after the router and
+   the middleware ([route]: any function of what they can observe of the entering request) have
+   worked on the request: after ANY history this is [spec_observed], which mentions the request
+   [q] and the configuration (root container, quoter, route, resource map look-ups) and nothing
+   else. No premise on the producer, the quoter, the router or the resource map. *)
+Theorem C11_handler_observations_determined :
+  forall (uri_path : bytes -> bytes)
+         (pat_by_rids name_by_rids : list N -> option bytes)
+         (pat_by_path name_by_path : bytes -> option bytes)
+         (requote : bytes -> option bytes) (root : container) (route : view -> list hact)
+         (history : list ev) (s : st) (q : reqd) (ts : list N),
+  run HCAP RCAP requote root st_init history = Val s ->
+  handler_sees uri_path pat_by_rids name_by_rids pat_by_path name_by_path route ts
+               (snd (request HCAP requote root s q)) =
+  spec_observed uri_path pat_by_rids name_by_rids pat_by_path name_by_path requote root route ts q.
+Proof. intros. eapply handler_sees_determined; eassumption. Qed.
+
+(* The property as worded: the same request after any two histories of the same worker
+   configuration is observed identically. *)
+Theorem C11_handler_observations_independent :
+  forall uri_path pat_by_rids name_by_rids pat_by_path name_by_path
+         requote root (route : view -> list hact)
+         (history1 history2 : list ev) (s1 s2 : st) (q : reqd) (ts : list N),
+  run HCAP RCAP requote root st_init history1 = Val s1 ->
+  run HCAP RCAP requote root st_init history2 = Val s2 ->
+  handler_sees uri_path pat_by_rids name_by_rids pat_by_path name_by_path route ts
+               (snd (request HCAP requote root s1 q)) =
+  handler_sees uri_path pat_by_rids name_by_rids pat_by_path name_by_path route ts
+               (snd (request HCAP requote root s2 q)).
+Proof. intros. eapply handler_sees_any_two_histories; eassumption. Qed.
+
+(* In particular the path the router matches against (Url::path) has no memory: it is the quoter's
+   answer for THIS request's URI, or that URI's own path. *)
+Theorem C11_decoded_path_has_no_memory :
+  forall (uri_path : bytes -> bytes) requote root history s q,
+  run HCAP RCAP requote root st_init history = Val s ->
+  url_path uri_path (view_of (snd (request HCAP requote root s q))) =
+  match requote (q_uri (conveyed q)) with
+  | Some p => p
+  | None => uri_path (q_uri (conveyed q))
+  end.
+Proof. intros. erewrite view_determined by eassumption. reflexivity. Qed.
+
+(* Non-vacuity of the handler-level theorems: request 0 ("/a%20b", decoded to "/a b") is routed to
+   resource [3] and marked matched, gets a scoped container, an extension and conn_data, and is
+   dropped; request 1 ("/g") receives that very object (o_id = 0). Its handler sees the path "/g"
+   (not "/a b"), the parameter cut out of "/g", the pattern and name of resource [2; 1] (not of
+   [3; 2; 1]), the root's app_data only, no extension and no conn_data. *)
+Example C11_example_observations :
+  let root := [(0, 0)] in
+  let requote := fun u => if bytes_eqb u [47;97;37;50;48;98] then Some [47;97;32;98] else None in
+  let id := fun u : bytes => u in
+  let by_rids := fun r : list N =>
+    match r with [3] => Some [97] | [2; 1] => Some [103] | _ => None end in
+  let none := fun _ : bytes => @None bytes in
+  let route := fun w : view =>
+    if bytes_eqb (url_path id w) [47;103]
+    then [HMut (MRid 2); HMut (MRid 1); HMut (MMark true); HMut (MAdd [105] 1 2); HMut (MSkip 2)]
+    else [HMut (MRid 3); HMut (MMark true); HMut (MData [(0, 5)]); HExt 1 1] in
+  let qa := mkReq PH1 [71;69;84] [47;97;37;50;48;98] 11 [([104], [49])] (Some 5) 2 [] (Some [(0, 3)]) in
+  let qb := mkReq PTest [80;85;84] [47;103] 10 [] None 0 [] None in
+  let history := [ERequest qa; EMut 0 (MRid 3); EMut 0 (MMark true); EMut 0 (MData [(0, 5)]);
+                  EExt 0 1 1; EDrop 0] in
+  exists s, run HCAP RCAP requote root st_init history = Val s /\
+            o_id (snd (request HCAP requote root s qb)) = 0 /\
+            handler_sees id by_rids by_rids none none route [0; 1]
+                         (snd (request HCAP requote root st_init qa)) =
+            mkObs [71;69;84] [47;97;37;50;48;98] 11 [([104], [49])] (Some 5) 2
+                  [47;97;32;98] [] [47;97;32;98] (Some [97]) (Some [97])
+                  [None; Some 1] [Some 3; None] [Some 5; None] /\
+            handler_sees id by_rids by_rids none none route [0; 1]
+                         (snd (request HCAP requote root s qb)) =
+            mkObs [80;85;84] [47;103] 10 [] None 0
+                  [47;103] [([105], [103])] [] (Some [103]) (Some [103])
+                  [None; None] [None; None] [Some 0; None].
+Proof. eexists. split; [vm_compute; reflexivity|]. vm_compute. repeat split. Qed.
 
 (* Non-vacuity: request 0 is routed into a scope (captures, skip, resource ids, scoped data),
    gets extensions and conn_data, is cloned and dropped twice; request 1 then really receives the
